@@ -414,6 +414,8 @@ def gen_history(rng, bucket):
     bucket "distinct*": every version is a sub-sequence of one global ordered universe of pairwise distinct
     lines (so the alignment between any two versions is unique); other buckets duplicate / move / re-add lines."""
     distinct = bucket.startswith("distinct")
+    if "twin" in bucket:
+        return gen_twin_history(rng, bucket)
     n = rng.choice([2, 3, 3, 4, 5, 6, 7]) if "big" not in bucket else rng.randrange(6, 11)
     merges = "merge" in bucket
     counter = [0]
@@ -504,3 +506,51 @@ def gen_history(rng, bucket):
     if out[-1]["content"] is None:
         out[-1]["content"] = b"last\n".hex()
     return {"commits": out, "head": n - 1, "distinct": distinct}
+
+
+def gen_twin_history(rng, bucket):
+    """two (or three) branches add the SAME line independently, then are merged: the line survives in several
+    parents with different origins, so the parent order decides (git: the first parent that has it).
+    Every version stays a sub-sequence of one universe of pairwise distinct lines."""
+    k = rng.randrange(0, 5)
+    root = sorted((rng.random(), b"root %d" % i) for i in range(k))
+    twin = [(rng.random(), b"twin %d" % i) for i in range(rng.choice([1, 1, 2]))]
+    nb = rng.choice([2, 2, 3])
+    t = 1000000000
+    commits = [{"parents": [], "when": t, "ver": root}]
+    tips = []
+    for b in range(nb):
+        own = [(rng.random(), b"own %d.%d" % (b, i)) for i in range(rng.choice([0, 0, 1, 2]))]
+        t += rng.randrange(1, 500) if "equaltime" not in bucket else 0
+        ver = sorted(root + twin + own)
+        if rng.random() < 0.3 and root:
+            ver.remove(rng.choice(root))
+        commits.append({"parents": [0], "when": t, "ver": ver})
+        tips.append(len(commits) - 1)
+        if rng.random() < 0.3:
+            t += rng.randrange(1, 500)
+            ver2 = sorted(ver + [(rng.random(), b"later %d" % b)])
+            commits.append({"parents": [tips[-1]], "when": t, "ver": ver2})
+            tips[-1] = len(commits) - 1
+    order = list(tips)
+    rng.shuffle(order)
+    t += rng.randrange(1, 500)
+    r = rng.random()
+    if r < 0.35:
+        mver = list(commits[order[rng.randrange(len(order))]]["ver"])      # identical to one parent
+    else:
+        uni = {}
+        for p in order:
+            for x in commits[p]["ver"]:
+                uni[x] = 1
+        mver = sorted(uni)
+        if r > 0.8:
+            mver = sorted(mver + [(rng.random(), b"merge line")])
+    commits.append({"parents": order, "when": t, "ver": mver})
+    if rng.random() < 0.4:
+        t += rng.randrange(1, 500)
+        commits.append({"parents": [len(commits) - 1], "when": t, "ver": sorted(mver + [(rng.random(), b"top")])})
+    final_nl = rng.random() < 0.85
+    out = [{"parents": c["parents"], "when": c["when"],
+            "content": join_lines([x for _, x in c["ver"]], b"\n", final=final_nl).hex()} for c in commits]
+    return {"commits": out, "head": len(out) - 1, "distinct": True}
